@@ -524,6 +524,38 @@ func (x *Exec) feasible(st *State) bool {
 	return status != "unsat"
 }
 
+// raceRefute runs z3 4.8.12, z3 5.1.0 and cvc5 on one feasibility script and reports whether any of them refutes it within
+// the timeout (the old z3 alone times out on many refutations that the others decide in a fraction of a second, and an
+// unrefuted branch costs a whole path of obligations).
+func raceRefute(ctx context.Context, file, txt string, timeout int) string {
+	cctx, cancel := context.WithCancel(ctx)
+	defer cancel()
+	ch := make(chan string, 3)
+	n := 0
+	for _, i := range []int{0, 1, 4} {
+		sp := solvers[i]
+		f := file
+		if sp.pre != "" {
+			f = file + ".cvc5.smt2"
+			os.WriteFile(f, []byte(sp.pre+txt), 0644)
+			defer os.Remove(f)
+		}
+		n++
+		go func() { st, _ := runSolver(cctx, sp, f, timeout); ch <- st }()
+	}
+	last := "timeout"
+	for i := 0; i < n; i++ {
+		st := <-ch
+		if st == "unsat" {
+			return st
+		}
+		if st == "sat" {
+			last = st
+		}
+	}
+	return last
+}
+
 // feasibleCond: can cond hold on this path? Quantified hypotheses and axioms are kept (the byte-string algebra is needed to
 // evaluate reads of symbolic wire data); "unknown" counts as feasible.
 func (x *Exec) feasibleCond(st *State, cond string) bool {
@@ -551,7 +583,7 @@ func (x *Exec) feasibleCond(st *State, cond string) bool {
 		defer os.Remove(file)
 	}
 	t0 := time.Now()
-	status, _ := runSolver(context.Background(), solvers[0], file, 1)
+	status := raceRefute(context.Background(), file, txt, 1)
 	x.feasCalls++
 	if os.Getenv("P9VC_TRACE") != "" {
 		fmt.Fprintf(os.Stderr, "feasible? %s %.2fs %.80s\n", status, time.Since(t0).Seconds(), cond)
@@ -574,19 +606,20 @@ func (x *Exec) refuteEither(st *State, cond string) (condImpossible, negImpossib
 	}
 	dir := filepath.Join(outBase(), "tmp")
 	os.MkdirAll(dir, 0755)
-	mk := func(c string) string {
+	mk := func(c string) (string, string) {
 		cmds := append(append([]string{}, st.cmds...), "(assert "+c+")")
 		o := &Obligation{Name: "feasibility", Cmds: cmds, Goal: "false", Groups: gs}
 		txt := x.e.smtText(o, false)
 		if len(txt) > maxSMTSize {
-			return ""
+			return "", ""
 		}
 		x.e.feasN++
 		file := filepath.Join(dir, fmt.Sprintf("feas_%d_%d.smt2", os.Getpid(), x.e.feasN))
 		os.WriteFile(file, []byte(txt), 0644)
-		return file
+		return file, txt
 	}
-	f1, f2 := mk(cond), mk(not(cond))
+	f1, t1 := mk(cond)
+	f2, t2 := mk(not(cond))
 	if f1 == "" || f2 == "" {
 		return false, false
 	}
@@ -599,8 +632,8 @@ func (x *Exec) refuteEither(st *State, cond string) (condImpossible, negImpossib
 		status string
 	}
 	ch := make(chan r, 2)
-	go func() { s, _ := runSolver(ctx, solvers[0], f1, 2); ch <- r{1, s} }()
-	go func() { s, _ := runSolver(ctx, solvers[0], f2, 2); ch <- r{2, s} }()
+	go func() { ch <- r{1, raceRefute(ctx, f1, t1, 2)} }()
+	go func() { ch <- r{2, raceRefute(ctx, f2, t2, 2)} }()
 	x.feasCalls += 2
 	for i := 0; i < 2; i++ {
 		a := <-ch
